@@ -125,7 +125,7 @@ def run_shard(rec, tier, seed, shard, nshards):
                             pass
                 rec.count("holders_used_before_save")
             for c, h in enumerate(chains):
-                fn = os.path.join(tmp, "th_%d_%d.h5" % (ci, c))
+                fn = os.path.join(tmp, "th_%d.h5" % c)  # same paths in every round: older chain files must be replaced
                 rec.case(("roundtrip", kind, sizes[c], kit.digest([kit.digest(sorted((k, kit.array_hash(v) if isinstance(v, np.ndarray) else repr(v)) for k, v in t.private_parameters_dict().items() if not isinstance(v, dict))) for t in h.thetas])), nontrivial=sizes[c] >= 2)
                 try:
                     h.save_h5(fn)
@@ -266,5 +266,3 @@ def run_shard(rec, tier, seed, shard, nshards):
             rec.check(h.get_theta(0) is h.thetas[0] and h.get_theta(len(h.thetas) - 1) is h.thetas[-1], "C10/get_theta/in-range", "get_theta in range does not return the stored sample", w)
             if ci == 0 and shard == 0:
                 rec.sample({"kind": kind, "chain_sizes": sizes, "D": D, "adversarial": adv, "first_tags": [float(t.precision) for t in chains[0].thetas[:4]]})
-            for fn in files:
-                os.remove(fn)
